@@ -224,11 +224,35 @@ func TestProp_C03_synthetic(t *testing.T) {
 		B := mk(chain[s], 0xB, 2)
 		// install the tables before anything is submitted at those heights
 		foreign := headers.Splits{{Name: "FOREIGN", BeforeHash: bitcoin.Hash32(chain[s].Hash()), AfterHash: bitcoin.Hash32(A.Hash()), Height: s + 1}}
+		// as on mainnet (BTC at 478559 below BCH/BSV at 556767): optionally a second, EARLIER foreign
+		// split whose "after" header E forks off our chain at height e
+		e := -1
+		var E model.RawHeader
+		if s >= 2 && rapid.Bool().Draw(t, "earlierSplit") {
+			e = rapid.IntRange(0, s-2).Draw(t, "earlierAt")
+			E = mk(chain[e], 0xEE, 7)
+			foreign = append(foreign, headers.Split{Name: "EARLIER", BeforeHash: bitcoin.Hash32(chain[e].Hash()), AfterHash: bitcoin.Hash32(E.Hash()), Height: e + 1})
+		}
 		required := &headers.Split{Name: "OURS", BeforeHash: bitcoin.Hash32(chain[s].Hash()), AfterHash: bitcoin.Hash32(B.Hash()), Height: s + 1}
 		repo.VerifSetSplits(foreign, required)
+		earlyOffer := e >= 0 && rapid.Bool().Draw(t, "offerEarlierAsExtension")
 		for i := 1; i <= s; i++ {
+			if earlyOffer && i == e+1 {
+				// offered while its parent is still the tip: an extension, not a new branch
+				if c := class(repo.ProcessHeader(ctx, fix.ToWire(&E))); c != "wrong-chain" {
+					t.Fatalf("earlier foreign split header (height %d, below the later split at %d) offered as an extension answered %q, want wrong-chain", e+1, s+1, c)
+				}
+			}
 			if err := repo.ProcessHeader(ctx, fix.ToWire(&chain[i])); err != nil {
 				t.Fatalf("chain header %d: %s", i, err)
+			}
+		}
+		if e >= 0 {
+			if c := class(repo.ProcessHeader(ctx, fix.ToWire(&E))); c != "wrong-chain" {
+				t.Fatalf("earlier foreign split header (height %d, below the later split at %d) offered as a new branch answered %q, want wrong-chain", e+1, s+1, c)
+			}
+			if c := class(repo.VerifyHeader(ctx, fix.ToWire(&E))); c != "wrong-chain" {
+				t.Fatalf("VerifyHeader(earlier foreign split header) = %q", c)
 			}
 		}
 		var sideTip *model.RawHeader
